@@ -749,3 +749,101 @@ Proof.
   exists [2; 2; 0; 0; 0; 0; 0; 0; 1]%nat. split; [apply lk_run_reach; constructor|].
   vm_compute. repeat split; reflexivity.
 Qed.
+
+(* ------------------------------------------------------------------ the unlocked read in coap_lock_lock_func *)
+
+(* coap_lock_lock_func evaluates "global_lock.in_callback && coap_thread_pid == global_lock.pid"
+   BEFORE it has the mutex (finding C13-F3: ThreadSanitizer reports these reads).  The model's
+   lk_lock_func takes the decision atomically.  This is justified here: while thread i stands
+   in front of a lock call, whatever the other threads do between its read of in_callback, its
+   read of pid and the moment it acts, the decision is the one the atomic version takes - if i
+   is the re-entering owner nobody else can move at all, otherwise pid never becomes i's id. *)
+
+Inductive lk_others (i : nat) : lk_state -> lk_state -> Prop :=
+| lk_others_refl : forall s, lk_others i s s
+| lk_others_step : forall s j s' s'', j <> i -> lk_step j s = Some s' ->
+                   lk_others i s' s'' -> lk_others i s s''.
+
+Definition lk_reentry_test (i : nat) (x y : lk_state) : bool :=
+  negb (lk_incb (lk_l x) =? 0) && (lk_pid (lk_l y) =? lk_tid i).
+
+Lemma lk_step_pid : forall j s s',
+  lk_step j s = Some s' ->
+  lk_pid (lk_l s') = lk_pid (lk_l s) \/ lk_pid (lk_l s') = 0 \/ lk_pid (lk_l s') = lk_tid j.
+Proof.
+  intros j s s' ST. unfold lk_step in ST.
+  destruct (nth_error (lk_thr s) j) as [[|o rest]|]; try discriminate.
+  destruct (lk_exec (lk_tid j) o (lk_l s)) as [l'|] eqn:EX; try discriminate.
+  injection ST as <-. cbn [lk_l].
+  destruct o; cbn in EX.
+  - unfold lk_lock_func in EX.
+    destruct (negb (lk_incb (lk_l s) =? 0) && (lk_pid (lk_l s) =? lk_tid j)).
+    + injection EX as <-. auto.
+    + destruct (lk_held (lk_l s)); [discriminate|]. injection EX as <-. auto.
+  - injection EX as <-. unfold lk_unlock_func.
+    destruct (negb (lk_incb (lk_l s) =? 0)); cbn; auto.
+  - injection EX as <-. auto.
+  - injection EX as <-. auto.
+  - injection EX as <-. auto.
+  - injection EX as <-. auto.
+Qed.
+
+Lemma lk_others_pid : forall i s s',
+  lk_others i s s' -> lk_pid (lk_l s) <> lk_tid i -> lk_pid (lk_l s') <> lk_tid i.
+Proof.
+  intros i s s' O. induction O as [|s j s' s'' NE ST O IH]; auto.
+  intros P. apply IH.
+  destruct (lk_step_pid _ _ _ ST) as [E|[E|E]]; rewrite E; auto.
+  - unfold lk_tid. lia.
+  - intro F. apply lk_tid_inj in F. contradiction.
+Qed.
+
+Section RacyRead.
+Variable progs : list (list lk_op).
+Hypothesis progs_wf : Forall (fun p => lk_wfprog p = true) progs.
+
+(* while a thread owns the mutex no other thread can take a step *)
+Lemma lk_owner_excludes : forall s i j,
+  lk_reach (lk_init progs) s -> lk_pid (lk_l s) = lk_tid i -> j <> i -> lk_step j s = None.
+Proof.
+  intros s i j R P NE.
+  destruct (lk_inv_reach _ _ progs_wf R) as (stk & TO & LO).
+  destruct LO as [(L0 & NH)|(i0 & ii & cc & I0 & V0 & L0 & NH)].
+  - rewrite L0 in P. cbn in P. unfold lk_tid in P. lia.
+  - rewrite L0 in P. cbn in P. apply lk_tid_inj in P. subst i0.
+    unfold lk_step. destruct (nth_error (lk_thr s) j) as [[|o rest]|] eqn:N; auto.
+    destruct (TO j _ N) as (OKj & RUN).
+    destruct (lk_srun_cons _ _ _ _ RUN) as (k' & SS & _).
+    assert (JLT : (j < length (lk_thr s))%nat) by (apply nth_error_Some; congruence).
+    destruct (lk_waiter_step _ _ _ OKj SS (NH j JLT NE)) as ((g & ->) & _).
+    rewrite L0, lk_lock_blocked; auto.
+    intro F. apply lk_tid_inj in F. contradiction.
+Qed.
+
+Theorem lk_racy_read_safe : forall s s1 s2 i,
+  lk_reach (lk_init progs) s -> lk_others i s s1 -> lk_others i s1 s2 ->
+  lk_reentry_test i s1 s2 = lk_reentry_test i s s /\
+  lk_reentry_test i s2 s2 = lk_reentry_test i s s /\
+  (lk_reentry_test i s s = true -> s1 = s /\ s2 = s).
+Proof.
+  intros s s1 s2 i R O1 O2.
+  destruct (Z.eq_dec (lk_pid (lk_l s)) (lk_tid i)) as [P|P].
+  - (* i owns the mutex: nobody else moves *)
+    assert (E1 : s1 = s).
+    { inversion O1 as [|x j s' s'' NE ST O]; subst; auto.
+      rewrite (lk_owner_excludes s i j R P NE) in ST. discriminate. }
+    subst s1.
+    assert (E2 : s2 = s).
+    { inversion O2 as [|x j s' s'' NE ST O]; subst; auto.
+      rewrite (lk_owner_excludes s i j R P NE) in ST. discriminate. }
+    subst s2. auto.
+  - (* i does not own it: pid never becomes i's id, the test stays false *)
+    pose proof (lk_others_pid _ _ _ O1 P) as P1.
+    pose proof (lk_others_pid _ _ _ O2 P1) as P2.
+    unfold lk_reentry_test.
+    replace (lk_pid (lk_l s) =? lk_tid i) with false by lia.
+    replace (lk_pid (lk_l s2) =? lk_tid i) with false by lia.
+    rewrite !andb_false_r. repeat split; auto; discriminate.
+Qed.
+
+End RacyRead.
